@@ -64,7 +64,7 @@ fn send_and_lex(f: Flow<(), Prepare>) -> Option<(crate::drv_req::LexedHead, Flow
 
 /// `peek`: bytes of the server's answer that are already there while the flow awaits 100-continue
 fn send_and_lex_peek(f: Flow<(), Prepare>, peek: Option<&[u8]>) -> Option<(crate::drv_req::LexedHead, Flow<(), RecvResponse>)> {
-    let mut buf = vec![0u8; 16384];
+    let mut buf = vec![0u8; 1 << 17];
     let mut f = f.proceed();
     let mut acc: Vec<u8> = vec![];
     for _ in 0..400 {
@@ -154,6 +154,8 @@ pub struct ChainOpt {
     pub explicit_host: bool,
     /// the original request is HTTP/1.0 (GET / HEAD / POST only)
     pub ver10: bool,
+    /// this many other header lines precede the credentials on the original request
+    pub fillers: usize,
 }
 
 const ORIG_AUTH: [&[u8]; 2] = [b"Basic b3JpZzpwdw==", b"Bearer second-line"];
@@ -170,6 +172,12 @@ pub fn run_chain_opt(t: &mut Tracer, orig: &Value, method: &str, same_host: bool
     let despite = opt.despite;
     let body_m = matches!(method, "POST" | "PUT" | "PATCH");
     let mut b = Request::builder().method(Method::from_bytes(method.as_bytes()).unwrap()).uri(uri_text(orig));
+    for k in 0..opt.fillers {
+        b = b.header(format!("x-fill-{}", k), "v");
+    }
+    if opt.fillers > 0 {
+        t.class("hop:many-original-headers");
+    }
     b = b.header("authorization", "Basic b3JpZzpwdw==").header("cookie", "session=orig").header("x-keep", "1");
     if orig["q"] != "-" || hops.len() % 2 == 0 {
         // the same credentials header on more than one line
@@ -367,15 +375,15 @@ fn bad_ref() -> Value {
 
 fn random_ref(rng: &mut StdRng) -> Value {
     let schemes = ["http", "https"];
-    let hosts = ["a.test", "b.test", "sub.a.test", "127.0.0.1", "10.1.2.3", "api.test"];
+    let hosts = ["a.test", "b.test", "sub.a.test", "127.0.0.1", "10.1.2.3", "api.test", "a.test.", "b.test."];
     let ports = [0u64, 0, 8080, 80, 443];
-    let qs = ["-", "-", "k=1", "a=b&c=d"];
-    let seg_pool = ["p", "q", ".", "..", "long-segment_1", "", "x"];
+    let qs = ["-", "-", "k=1", "a=b&c=d", "ids=1,2,3&sort=asc", "next=1,https://c.test/landing"];
+    let seg_pool = ["p", "q", ".", "..", "long-segment_1", "", "x", "@52.37,4.89", "a;v=1"];
     let nseg = rng.gen_range(0..5);
     let mut segs: Vec<&str> = (0..nseg).map(|_| seg_pool[rng.gen_range(0..seg_pool.len())]).collect();
     match rng.gen_range(0..10) {
-        0 | 1 | 2 => mk_ref("abs", schemes[rng.gen_range(0..2)], hosts[rng.gen_range(0..6)], ports[rng.gen_range(0..5)], &segs, qs[rng.gen_range(0..4)]),
-        3 => mk_ref("net", "", hosts[rng.gen_range(0..6)], ports[rng.gen_range(0..5)], &segs, qs[rng.gen_range(0..4)]),
+        0 | 1 | 2 => mk_ref("abs", schemes[rng.gen_range(0..2)], hosts[rng.gen_range(0..8)], ports[rng.gen_range(0..5)], &segs, qs[rng.gen_range(0..6)]),
+        3 => mk_ref("net", "", hosts[rng.gen_range(0..8)], ports[rng.gen_range(0..5)], &segs, qs[rng.gen_range(0..6)]),
         4 | 5 => {
             // a path-absolute reference must not begin with "//" (that is a network-path reference)
             while segs.len() > 1 && segs[0].is_empty() {
@@ -384,7 +392,7 @@ fn random_ref(rng: &mut StdRng) -> Value {
             if segs.is_empty() {
                 segs.push("");
             }
-            mk_ref("abspath", "", "", 0, &segs, qs[rng.gen_range(0..4)])
+            mk_ref("abspath", "", "", 0, &segs, qs[rng.gen_range(0..6)])
         }
         6 | 7 => {
             // a relative path reference must not start with an empty segment (that would be a path-absolute
@@ -393,7 +401,7 @@ fn random_ref(rng: &mut StdRng) -> Value {
             if segs.is_empty() {
                 segs.push("rel");
             }
-            mk_ref("relpath", "", "", 0, &segs, qs[rng.gen_range(0..4)])
+            mk_ref("relpath", "", "", 0, &segs, qs[rng.gen_range(0..6)])
         }
         8 => mk_ref("query", "", "", 0, &[], ["z=9", "k=1"][rng.gen_range(0..2)]),
         _ => mk_ref("empty", "", "", 0, &[], "-"),
@@ -464,7 +472,7 @@ pub fn c13_14(o: &Opts, t: &mut Tracer, own_host: bool) -> Value {
         }
         let m = methods[rng.gen_range(0..9)];
         t.sig(format!("rnd/{}/{}/{}", m, nh, i % 9 == 0));
-        let opt = ChainOpt { despite: rng.gen_bool(0.15), despite_hops: rng.gen_bool(0.15), readd: rng.gen_bool(0.25), interim: rng.gen_bool(0.15), answer_in_await: rng.gen_bool(0.3), explicit_host: own_host && rng.gen_bool(0.2), ver10: rng.gen_bool(0.2) };
+        let opt = ChainOpt { despite: rng.gen_bool(0.15), despite_hops: rng.gen_bool(0.15), readd: rng.gen_bool(0.25), interim: rng.gen_bool(0.15), answer_in_await: rng.gen_bool(0.3), explicit_host: own_host && rng.gen_bool(0.2), ver10: rng.gen_bool(0.2), fillers: [0usize, 0, 0, 3, 70][rng.gen_range(0..5)] };
         run_chain_opt(t, &orig, m, rng.gen_bool(0.6), &hops, "random-chain", opt);
     }
     // directed: leave and return, scheme downgrade on the same host, same host different port
@@ -483,7 +491,7 @@ pub fn c13_14(o: &Opts, t: &mut Tracer, own_host: bool) -> Value {
             run_chain(t, &a("https", "127.0.0.1", 0), "GET", same, &[h(abs("https", "10.1.2.3", 0)), h(absp.clone()), h(abs("https", "127.0.0.1", 0))], "ip-literal-leave-and-return");
             run_chain(t, &a("http", "[::1]", 8080), "GET", same, &[h(abs("http", "[::2]", 8080)), h(abs("http", "127.0.0.1", 8080)), h(abs("http", "[::1]", 8080))], "ipv6-literal-leave-and-return");
             for opt in [ChainOpt { readd: true, ..Default::default() }, ChainOpt { despite_hops: true, ..Default::default() }, ChainOpt { interim: true, ..Default::default() },
-                        ChainOpt { readd: true, despite_hops: true, interim: true, despite: true, answer_in_await: false, explicit_host: false, ver10: false }, ChainOpt { answer_in_await: true, ..Default::default() },
+                        ChainOpt { readd: true, despite_hops: true, interim: true, despite: true, answer_in_await: false, explicit_host: false, ver10: false, fillers: 0 }, ChainOpt { answer_in_await: true, ..Default::default() },
                         ChainOpt { explicit_host: own_host, ..Default::default() }, ChainOpt { ver10: true, despite_hops: true, ..Default::default() }] {
                 run_chain_opt(t, &a("https", "a.test", 0), "GET", same, &[h(absp.clone()), h(abs("https", "b.test", 0)), h(rel.clone()), h(abs("https", "a.test", 0))], "caller-options", opt);
                 run_chain_opt(t, &a("http", "a.test", 0), "POST", same, &[h(absp.clone()), h(rel.clone())], "caller-options", opt);
@@ -491,6 +499,10 @@ pub fn c13_14(o: &Opts, t: &mut Tracer, own_host: bool) -> Value {
             // the caller's own Host header says "api.test": that is not the host the request was sent to
             run_chain_opt(t, &a("https", "a.test", 0), "GET", same, &[h(abs("https", "api.test", 0)), h(absp.clone()), h(abs("https", "b.test", 0)), h(abs("https", "api.test", 8443))], "explicit-host-header",
                           ChainOpt { explicit_host: own_host, ..Default::default() });
+            // the root label makes another host of it (another Host header, another TLS name)
+            run_chain(t, &a("https", "a.test", 0), "GET", same, &[h(abs("https", "a.test.", 0)), h(absp.clone()), h(abs("https", "a.test", 0)), h(mk_ref("net", "", "a.test.", 0, &["x"], "-"))], "root-label-host");
+            run_chain_opt(t, &a("https", "a.test", 0), "GET", same, &[h(abs("https", "b.test", 0)), h(absp.clone()), h(abs("https", "a.test", 0))], "many-original-headers", ChainOpt { fillers: 70, ..Default::default() });
+            run_chain_opt(t, &a("http", "a.test", 0), "POST", same, &[h(absp.clone()), h(abs("http", "b.test", 0))], "many-original-headers", ChainOpt { fillers: 64, ..Default::default() });
             t.sig(format!("directed/{}/{}", same, st));
         }
     }
@@ -517,7 +529,7 @@ pub fn c15(o: &Opts, t: &mut Tracer) -> Value {
                         t.class("hop:to-the-same-uri");
                     }
                     let despite = !matches!(m, "POST" | "PUT" | "PATCH") && (st as usize + n) % 4 == 1;
-                    let opt = ChainOpt { despite, despite_hops: (st as usize + n) % 5 == 2, readd: (st as usize + n) % 7 == 3, interim: (st as usize + n / 4) % 3 == 1, answer_in_await: (st as usize + n / 2) % 2 == 0, explicit_host: false, ver10: (st as usize + n) % 11 == 5 };
+                    let opt = ChainOpt { despite, despite_hops: (st as usize + n) % 5 == 2, readd: (st as usize + n) % 7 == 3, interim: (st as usize + n / 4) % 3 == 1, answer_in_await: (st as usize + n / 2) % 2 == 0, explicit_host: false, ver10: (st as usize + n) % 11 == 5, fillers: 0 };
                     let mut hops = vec![Hop { status: st, r, bad: None, frag: false, decoys: 0, with_body }];
                     if (st as usize + n) % 4 == 2 {
                         // the table applies hop by hop: the method of a later hop is decided from the method the previous hop produced
@@ -531,6 +543,17 @@ pub fn c15(o: &Opts, t: &mut Tracer) -> Value {
             }
             t.sig(format!("c15/{}/{}", m, st));
         }
+    }
+    // the table has no hop count in it: long chains, and Locations of every length
+    for (k, m) in ["GET", "HEAD", "OPTIONS", "POST", "TRACE"].iter().enumerate() {
+        let hops: Vec<Hop> = (0..14).map(|j| Hop { status: [302u16, 307, 301, 308, 303][(j + k) % 5], r: mk_ref("abspath", "", "", 0, &["hop", ["a", "b", "c"][j % 3]], ["-", "n=1"][j % 2]), bad: None, frag: false, decoys: 0, with_body: j % 4 == 3 }).collect();
+        run_chain_opt(t, &orig, m, k % 2 == 0, &hops, "c15-long-chain", ChainOpt::default());
+        t.class("hop:long-chain");
+        let longq = format!("state={}", "s".repeat([300usize, 9000, 20000, 8192 - 20, 40000][k]));
+        let h2 = vec![Hop { status: [302u16, 307, 303, 301, 308][k], r: json!({"kind":"abspath","scheme":"","host":"","port":0,"segs":["sso","callback"],"q":longq}), bad: None, frag: false, decoys: 0, with_body: false },
+                      Hop { status: 302, r: mk_ref("relpath", "", "", 0, &["done"], "-"), bad: None, frag: false, decoys: 0, with_body: false }];
+        run_chain_opt(t, &orig, m, k % 2 == 1, &h2, "c15-long-location", ChainOpt::default());
+        n += 2;
     }
     let _ = o;
     json!({"flows": n})
